@@ -1,8 +1,22 @@
-from checks import apifam
+from checks import apifam, concfam
 GUARDS = {"UsableAtLeastRequested", "AlignOK", "AlignKeptByRealloc", "ExpandSucceedsUpToUsable", "ExpandNeverMoves", "ExpandWithinUsable",
           "UsableStable", "QueryOfLiveBlock", "FreeOfLiveBlock", "ReallocOfLiveBlock", "GoodSizeAtLeast"}
+ALL = GUARDS | {"ContentsKept.gen", "ContentsKept.bytes", "NoOverlap", "ObsOfLiveBlock", "CheckAllComplete"}
 def run(tier, seed):
     # interior (aligned) pointers go through free/usable_size/expand/realloc like any other pointer; neighbours are watched by ContentsKept
-    return apifam.run_api("C03", tier, seed, profiles=["c03"], builds=["rel", "dbg", "sec"],
-                          own_guards=GUARDS | {"ContentsKept.gen", "ContentsKept.bytes", "NoOverlap"}, crash_decisive=True,
-                          gen=(0, 0))
+    V, cov = apifam.run_api("C03", tier, seed, profiles=["c03", "c03", "bulk"], builds=["rel", "dbg", "sec"], own_guards=ALL, crash_decisive=True,
+                            gen=(0, 0), finish=False)
+    # ... also after the allocating thread is gone (its pages are abandoned, adopted by other threads, reused)
+    rof = {"MIMALLOC_ABANDONED_RECLAIM_ON_FREE": "1"}
+    jobs = [
+        {"prog": "exit-aligned", "strategy": "random", "runs": (120, 1500), "args": ["--rate", "3"]},
+        {"prog": "exit-aligned", "strategy": "random", "runs": (120, 1500), "args": ["--rate", "3"], "env": rof},
+        {"prog": "exit-aligned", "strategy": "pct", "runs": (60, 800), "args": [], "env": rof},
+    ]
+    V, cov2 = concfam.run_conc("C03", tier, seed, jobs, ALL, mc=("MiAbandonMC", ("MiAbandon_mc.cfg", "MiAbandon_mc_thorough.cfg")), guided_progs=(), V=V, finish=False)
+    cov["after_thread_exit"] = {k: cov2[k] for k in ("traces_validated_against_impl", "trace_events_validated", "programs", "strategies")}
+    cov["traces_validated_against_impl"] += cov2["traces_validated_against_impl"]
+    cov["samples"] = cov["samples"] + cov2["samples"][:2]
+    return V.finish("model_checking", cov, assumptions=[
+        "alignments 1 .. 2^28 (offset 0 above 16 MiB); debug builds only with offsets that keep the pointer word-aligned (their pointer validation rejects others)",
+        "TLC and harness measurements trusted; bounded MiApiMC constants; scheduled executions are SC interleavings"])
